@@ -71,7 +71,16 @@ def classify(script, i, v, fw):
         beh = "returns"
     if "~p" in head:
         beh += "+progress"
-    faults = [f for t in script[:i + 1] if _kind(t) == "fault" for f in t.split(",")[1].split(".") if f != "ok"]
+    # the send() plan in force for this invocation's reply: the `fault` token right before the event that makes the
+    # endpoint's outcome known (the invocation itself, or the completion of its pending result)
+    faults = []
+    for j, t in enumerate(script[:i + 1]):
+        k = _kind(t)
+        if j > 0 and _kind(script[j - 1]) == "fault" and t.split(",")[1:2] == [req] and \
+                k in ("m.invocation", "resolve", "fail", "m.interrupt"):
+            faults = [f for f in script[j - 1].split(",")[1].split(".") if f != "ok"]
+    if not faults and not inv:
+        faults = [f for t in script[:i + 1] if _kind(t) == "fault" for f in t.split(",")[1].split(".") if f != "ok"]
     extra = []
     if faults:
         extra.append("send=" + "+".join(faults[:2]))
@@ -79,6 +88,10 @@ def classify(script, i, v, fw):
         extra.append("progress-called-after-return")
     if any(_kind(t) == "m.interrupt" and t.split(",")[1] == req for t in script[:i + 1]):
         extra.append("interrupt")
+    if clause == "no-reply" and faults[:2] == ["big", "big"]:
+        return "no-reply:oversize-result:fallback-error-repeats-the-result-and-exceeds-the-limit-too"
+    if clause == "no-reply" and faults[:1] == ["other"] and "rs" in fw and "twisted" in fw:
+        return "no-reply:unserializable-result:twisted-rawsocket-send-raises-the-serializer's-own-exception"
     if clause == "late-progress" and "progress-called-after-return" in extra:
         return "late-progress:endpoint-keeps-details.progress-and-calls-it-after-returning"
     if clause == "no-reply" and beh == "raises-unbuildable-error":
@@ -258,6 +271,140 @@ def gen(ctx):
     return out
 
 
+# ----------------------------------------------------------------------------- part B: the four real transports
+
+LIMITS = {"rs": [9, 10, 11, 12], "ws": [512, 1024, 2048, 4096]}     # at 2^9 not even HELLO fits (recorded, skipped)
+CLASS = {"ok": "ok", "SerializationError": "ser", "PayloadExceededError": "big"}
+
+
+def link_for(kind, lim):
+    return {"rs_peer_exp": lim} if kind == "rs" else {"ws_max": lim}
+
+
+def limit_of(kind, lim):
+    return 2 ** lim if kind == "rs" else lim
+
+
+def real_cases(rng, kind, lim, table):
+    """-> list of (real_script, model_script). `table`: what this transport's send() was measured to do with each kind
+    of result (spec -> ok | ser | big | other)"""
+    n = limit_of(kind, lim)
+    specs = ["v5", "S%d" % (n // 4), "S%d" % (n + 200), "S%d" % (4 * n), "Uo", "Us", "Uu"]
+    head = ["open", "pump", "m.welcome,7", "pump", "reg,1,4,oda=0,ok", "pump", "m.registered,1,70", "pump"]
+
+    def plan(spec):
+        c = table[spec]
+        if c == "ok":
+            return None
+        if c == "ser":
+            return "ser.ok"            # the fallback names the value by its repr: small and serializable
+        if c == "big":
+            return "big.big"           # the fallback ERROR carries the repr of the oversize value: oversize again
+        return "other"
+
+    def model_ret(spec):
+        return "rv5" if spec == "v5" else "rca/k"      # a text result is rendered without its text: `a`
+
+    out = []
+    # (1) each result kind alone, synchronous and as a pending result completed later
+    for spec in specs:
+        for pending in (False, True):
+            real, model = list(head), list(head)
+            p = plan(spec)
+            if pending:
+                real += ["m.invocation,9,70,a1,k1=2,0;rp", "pump", "resolve,9,%s" % spec, "pump"]
+                model += ["m.invocation,9,70,a1,k1=2,0;rp", "pump"] + (["fault," + p] if p else []) + \
+                         ["resolve,9,%s" % (model_ret(spec)[1:] or "n"), "pump"]
+            else:
+                real += ["m.invocation,9,70,a1,k1=2,0;r%s" % spec, "pump"]
+                model += (["fault," + p] if p else []) + ["m.invocation,9,70,a1,k1=2,0;%s" % model_ret(spec), "pump"]
+            out.append((real, model))
+    # (2) 1-3 invocations one after the other with mixed results, INTERRUPT before / after, errors, progress
+    for _ in range(2):
+        real, model = list(head), list(head)
+        for j in range(rng.randint(1, 3)):
+            req = 20 + j
+            x = rng.random()
+            if x < 0.5:
+                spec = rng.choice(specs)
+                p = plan(spec)
+                if rng.random() < 0.3:
+                    real.append("m.interrupt,%d" % req)
+                    model.append("m.interrupt,%d" % req)
+                real += ["m.invocation,%d,70,n,n,1;r%s~p3" % (req, spec), "pump"]
+                model += (["fault,ok." + p] if p else []) + ["m.invocation,%d,70,n,n,1;%s~p3" % (req, model_ret(spec)), "pump"]
+            elif x < 0.8:
+                act = rng.choice(EXC)
+                real += ["m.invocation,%d,70,a5,n,0;%s" % (req, act), "pump"]
+                model += ["m.invocation,%d,70,a5,n,0;%s" % (req, act), "pump"]
+            else:
+                real += ["m.invocation,%d,70,n,n,0;rp" % req, "pump", "m.interrupt,%d" % req, "pump", "resolve,%d,v1" % req, "pump"]
+                model += ["m.invocation,%d,70,n,n,0;rp" % req, "pump", "m.interrupt,%d" % req, "pump", "resolve,%d,v1" % req, "pump"]
+            if rng.random() < 0.3:
+                real += ["m.interrupt,%d" % req, "pump"]
+                model += ["m.interrupt,%d" % req, "pump"]
+        out.append((real, model))
+    return out
+
+
+def check_part_b(ctx, res):
+    rng = ctx.rng
+    quick = ctx.tier == "quick"
+    by_key, breaks = {}, []
+    probe = ["v5", "Uo", "Us", "Uu"]
+    for fw in ("twisted", "asyncio"):
+        combos = [(k, s, lim) for k, s in sc.COMBOS for lim in ([LIMITS[k][1], LIMITS[k][-1]] if quick else LIMITS[k])]
+        # what does each transport's send() do with each kind of result? (measured on the real code)
+        specs_of = {c: probe + ["S%d" % (limit_of(c[0], c[2]) // 4), "S%d" % (limit_of(c[0], c[2]) + 200), "S%d" % (4 * limit_of(c[0], c[2]))] for c in combos}
+        cls = sc.run_real_parallel(fw, [{"kind": k, "ser": s, "link": link_for(k, lim), "classify": specs_of[(k, s, lim)]} for k, s, lim in combos])
+        tables = {c: {sp: CLASS.get(x, "other") for sp, x in zip(specs_of[c], o)} for c, o in zip(combos, cls)}
+        raw = {c: dict(zip(specs_of[c], o)) for c, o in zip(combos, cls)}
+        for c in combos:
+            res.count("send-class:%s %s/%s: unserializable object -> %s, oversize -> %s" % (
+                fw, c[0], c[1], raw[c]["Uo"], raw[c]["S%d" % (limit_of(c[0], c[2]) + 200)]))
+        cases = {c: real_cases(rng, c[0], c[2], tables[c]) for c in combos}
+        obs = sc.run_real_parallel(fw, [{"kind": k, "ser": s, "link": link_for(k, lim), "scripts": [r for r, _ in cases[(k, s, lim)]]} for k, s, lim in combos])
+        ctx.log(f"part B {fw}: {sum(len(v) for v in cases.values())} scripts over {len(combos)} transport x serializer x limit combinations")
+        for c, o in zip(combos, obs):
+            k, sname, lim = c
+            if o and not any("send:HELLO" in l for l in o[0][:2]):
+                # the negotiated limit is below the size of HELLO itself: this session cannot even join
+                res.count(f"real: HELLO exceeds the limit, combination skipped: {fw} {k}/{sname} limit {limit_of(k, lim)}")
+                continue
+            models = sc.run_model(ctx, fw, [m for _, m in cases[c]])
+            clean = [[";".join(t for t in sc.tokens(l) if not t.startswith("t:")) or "-" for l in lines] for lines in o]
+            # the real trace lines up with the model script once the `fault` tokens (no event of the real run) are skipped
+            aligned = []
+            for (real, model), lines in zip(cases[c], clean):
+                it = iter(lines)
+                aligned.append(["-" if t.startswith("fault,") else next(it) for t in model])
+            verdicts = sc.run_trace(ctx, fw, [m for _, m in cases[c]], aligned)
+            for (real, model), a, m, vv in zip(cases[c], aligned, models, verdicts):
+                res.evaluations += len(model)
+                res.traces_validated += 1
+                A = sc.merge_pairs(model, a)
+                M = sc.merge_pairs(model, m, drop=("t:", "sendfail:"))
+                bad = next(((t, x, y) for (t, x), (_, y) in zip(A, M) if x != y), None)
+                if bad is not None:
+                    breaks.append({"stream": f"model vs {fw} {k}/{sname} limit {lim} implementation", "script": real, "model_script": model,
+                                   "event": bad[0], "model": ";".join(bad[2]), "implementation": ";".join(bad[1])})
+                for (j, v) in vv:
+                    if not owns(v):
+                        continue
+                    key = classify(model, j, v, f"{fw} {k}/{sname}")
+                    if key not in by_key or len(real) < len(by_key[key][1]):
+                        by_key[key] = (f"{fw} {k}/{sname} limit {limit_of(k, lim)}", real, model, j, v, a[j])
+                    res.count("real: violation:" + key)
+    res.correspondence_breaks += breaks[:20]
+    res.count("real: correspondence-breaks", len(breaks))
+    for key, (where, real, model, j, v, act) in sorted(by_key.items()):
+        res.violations.append(core.Violation(
+            key, f"{where} (real transport): event #{j} `{model[j]}`: trace Spec verdict [{v}]; the implementation did [{act}]; "
+                 f"script: {' '.join(real)}",
+            {"transport": where, "script": real, "model_script": model, "event_index": j, "verdict": [v], "actual": act}))
+    return {"keys": sorted(by_key), "breaks": len(breaks)}
+
+
 CORPUS = [
     # U2: the endpoint keeps details.progress and calls it after it returned
     (["open", "pump", "m.welcome,7", "reg,1,4,oda=0,ok", "m.registered,1,70", "pump", "m.invocation,5,70,a1,k1=2,1;rv9~p3", "pump",
@@ -302,4 +449,14 @@ def run(ctx):
     ctx.log(f"{len(uniq)} scripts, {sum(len(s) for _, s, _ in uniq)} events")
     st = sc.check_traces(ctx, res, uniq, owns, classify, prefix=3)
     res.notes.append("trace-Spec violations by key: " + ", ".join(st["keys"]) if st["keys"] else "no trace-Spec violation")
+    st2 = check_part_b(ctx, res)
+    res.notes.append("part B (the four real transports x json / msgpack / cbor x size limits): "
+                     + ("violations by key: " + ", ".join(st2["keys"]) if st2["keys"] else "no trace-Spec violation")
+                     + f"; correspondence breaks: {st2['breaks']}")
+    seen_keys, vs = set(), []
+    for v in res.violations:
+        if v.key not in seen_keys:
+            seen_keys.add(v.key)
+            vs.append(v)
+    res.violations[:] = vs
     return res
